@@ -66,7 +66,7 @@ def tmpdir():
 ROUTE_STARTS = ["from_list", "one_by_one", "scenario_net", "scenario_each"]
 _FORKS = []
 ROUTE_STEPS = ["add", "add_dup", "remove", "lazy", "fork", "add_from", "deepcopy", "deepcopy_self", "pickle", "xml", "pb", "cutout",
-               "scenario_copy"]
+               "scenario_copy", "add_clone"]
 
 
 def gen_route(rng, net):
@@ -86,6 +86,9 @@ def gen_route(rng, net):
             route.append(["add", i])
         elif op == "add_dup" and present:
             route.append(["add_dup", rng.choice(present)])
+        elif op == "add_clone" and present and not any(r_[0] == "add_clone" for r_ in route):
+            # an overlay lane: a deep copy of a lanelet of the network, given a new id, added to the same network
+            route.append(["add_clone", rng.choice(present)])
         elif op == "remove" and present:
             i = rng.choice(present)
             present.remove(i)
@@ -424,6 +427,14 @@ def run_route(case):
                     net.add_lanelet(la)
                     sc = None  # from here on the network is used on its own
                 ops.append(("add", m))
+            elif op == "add_clone":
+                src_la = net.find_lanelet_by_id(step[1])
+                if src_la is not None:
+                    clone = copy.deepcopy(src_la)
+                    clone.lanelet_id = 9000 + int(step[1])
+                    net.add_lanelet(clone)
+                    sc = None
+                    ops.append(("add", (9000 + int(step[1]), H.fresh(), current_rings(net)[int(step[1])])))
             elif op == "remove":
                 la = net.find_lanelet_by_id(step[1])
                 if sc is not None and la is not None:
